@@ -56,7 +56,7 @@ InstOf(ctx, T, v) ==
                              [] T.c = "set" -> v.k = "set" [] T.c = "fset" -> v.k = "fset")
     [] T.k = "tuple"   -> v.k = "tuple"
     [] T.k = "map"     -> v.k = "dict"
-    [] T.k = "lit"     -> \E i \in DOMAIN T.vals : T.vals[i].k = v.k
+    [] T.k = "lit"     -> \E i \in DOMAIN T.vals : LitImg(T, i).k = v.k
     [] T.k = "enum"    -> v.k = "enum" /\ v.cls = T.cls
     [] T.k = "obj"     -> IF ctx.C[T.cls].kind = "typeddict" THEN v.k = "dict" ELSE v.k = "inst" /\ v.cls = T.cls
     [] T.k = "union"   -> \E i \in DOMAIN T.alts : InstOf(ctx, T.alts[i], v)
@@ -132,7 +132,7 @@ Ser(ctx, T, v) ==
     [] T.k = "map"     ->
          IF v.k # "dict" THEN SErr("type")
          ELSE DObj([i \in DOMAIN v.o |-> <<KeyStr(Ser(ctx, T.kt, v.o[i][1])), Ser(ctx, T.vt, v.o[i][2])>>])
-    [] T.k = "lit"     -> v
+    [] T.k = "lit"     -> IF v.k = "enum" THEN SerAny(ctx, v) ELSE v      \* a member of an Enum among the values: by value
     [] T.k = "enum"    -> IF InstOf(ctx, T, v) THEN SerAny(ctx, v) ELSE SErr("type")
     [] T.k = "union"   ->
          \* the first alternative whose class matches
